@@ -21,13 +21,16 @@
 (*                 | 3:  + G, G a list expression that uses math names and builtins       *)
 (*   cst    constant of equation 1:  0: 2.0 | 1: a closed expression over math names /     *)
 (*          builtins chosen by fn (sqrt(4.0), tanh(0.5) + 1.5, e, max(2.0, 1.0), ...)     *)
-(*          | 2: c0 with the line c0 = 2.0                                               *)
+(*          | 2: c0 with the line c0 = 2.0 | 3: 1000000.0 (large values)                  *)
 (*   tw     spelling of the time trend: 0.25*t or wrapped in max / hypot / abs / copysign *)
 (*   userT  "none": the parser injects t = k                                             *)
 (*          "endo": t = t_minus_1 + 1.0 and t_minus_1 = t(k-1)                           *)
 (*          "exo" : t = [0.0, 1.0, ...] in the exogenous section                         *)
 (*   useT   + 0.25*t in the last equation                                                *)
 (*   tol    0: no Err_Tolerance line (parser default 1e-8) | 4: Err_Tolerance = 1e-4     *)
+(*          | 100: Err_Tolerance = 1.0 | 200: Err_Tolerance = 2.0  (used with cst = 3)    *)
+(*   red    constructor option run_equation_reduction of the generator                   *)
+(*   al     an alias line  INC = <last>  that nothing reads (decorative under reduction) *)
 (*   nm     names of the variables: 0: x, y, z and the parameter c0 = 2.0                *)
 (*          1: err, new_vector, in_vec and the parameter cnt = 500.0 - locals of the     *)
 (*             generated RunOneStep / Iterator (err and cnt are the loop state; err is   *)
@@ -92,6 +95,7 @@ EqReads(o, i) ==
 MkBlock(o) ==
     o @@
     [ endo   |-> [ i \in 1..o.n |-> [name |-> VarName(o, i), reads |-> EqReads(o, i)] ]
+                 \o Opt(o.al, << [name |-> "INC", reads |-> << Last(o) >>] >>)
                  \o Opt(o.cst = 2, << [name |-> ParamName(o), reads |-> << >>] >>)
                  \o Opt(o.userT = "endo", << [name |-> "t", reads |-> << "t_minus_1" >>] >>),
       lagged |-> LET l1 == [name |-> LagName(o), of |-> Last(o)]
@@ -108,7 +112,8 @@ MkBlock(o) ==
                                      reads |-> IF o.exo = 3 THEN ExoExprReads ELSE << >>] >>)
                  \o Opt(o.userT = "exo", << [name |-> "t", len |-> o.maxTime + 1, reads |-> << >>] >>),
       ics    |-> Opt(o.ic, << Last(o) >>),
-      foundT |-> o.userT # "none" ]
+      foundT |-> o.userT # "none",
+      reduce |-> o.red ]
 
 ----------------------------------------------------------------------------
 (* coefficient matrices, in quarters *)
@@ -136,7 +141,8 @@ BaseMats == { << << 0, 1 >>, << 2, 0 >> >>,
 
 OptsOverN(M, MT, Tols, Lags, Nms) ==
     { [n |-> Len(A), A |-> A, lag |-> l, ic |-> c, exo |-> e, cst |-> s, userT |-> u, useT |-> w,
-       tol |-> tl, maxTime |-> mt, nm |-> nm, fn |-> IF s = 1 THEN 1 ELSE 0, tw |-> 0] :
+       tol |-> tl, maxTime |-> mt, nm |-> nm, fn |-> IF s = 1 THEN 1 ELSE 0, tw |-> 0, red |-> FALSE,
+       al |-> FALSE] :
       A \in M, l \in Lags, c \in BOOLEAN, e \in 0..2, s \in 0..2, u \in {"none", "endo", "exo"},
       w \in BOOLEAN, tl \in Tols, mt \in MT, nm \in Nms }
 OptsOver(M, MT, Tols) == OptsOverN(M, MT, Tols, 0..2, {0})
@@ -161,7 +167,8 @@ OwnNameProfiles ==
       [lag |-> 1, ic |-> TRUE,  exo |-> 1, cst |-> 2, userT |-> "none", useT |-> TRUE,  tol |-> 0, nm |-> 3],
       [lag |-> 0, ic |-> FALSE, exo |-> 0, cst |-> 0, userT |-> "endo", useT |-> FALSE, tol |-> 0, nm |-> 3] }
 ProfilesOf(P, M, MT) ==
-    { [n |-> Len(A), A |-> A, maxTime |-> mt] @@ pr @@ [fn |-> IF pr.cst = 1 THEN 1 ELSE 0, tw |-> 0] :
+    { [n |-> Len(A), A |-> A, maxTime |-> mt] @@ pr
+      @@ [fn |-> IF pr.cst = 1 THEN 1 ELSE 0, tw |-> 0, red |-> FALSE, al |-> FALSE] :
       A \in M, pr \in P, mt \in MT }
 (* math functions and constants, builtins: every constant spelling with / without the exogenous list *)
 (* expression that uses math names, injected and user-defined time axis; every time-trend wrapper     *)
@@ -172,6 +179,24 @@ MathProfiles ==
     { [lag |-> 0, ic |-> FALSE, exo |-> 3, cst |-> c, userT |-> u, useT |-> TRUE, tol |-> 0, nm |-> 0,
        fn |-> IF c = 1 THEN 10 ELSE 0, tw |-> w] : w \in 1..4, c \in {0, 1}, u \in {"none", "exo"} }
 ProfilesOver(M, MT) == ProfilesOf(Profiles, M, MT)
+(* equation reduction: option on with / without the unread alias, with the time axis read / unread  *)
+(* (the injected t = k is decorative when unread), lags (a lagged variable is read), a parameter;   *)
+(* the alias with the option off                                                                    *)
+RedProfiles ==
+    { [lag |-> l, ic |-> TRUE, exo |-> 1, cst |-> s, userT |-> u, useT |-> w, tol |-> 0, nm |-> 0,
+       red |-> TRUE, al |-> a] : l \in {0, 1, 3}, s \in {0, 2}, u \in {"none", "endo"}, w \in BOOLEAN, a \in BOOLEAN }
+    \cup
+    { [lag |-> l, ic |-> TRUE, exo |-> 1, cst |-> s, userT |-> u, useT |-> TRUE, tol |-> 0, nm |-> 0,
+       red |-> FALSE, al |-> TRUE] : l \in {0, 1}, s \in {0, 2}, u \in {"none", "endo"} }
+(* matrices with leaves (a variable no other equation reads), cycles, decoupled variables *)
+RedMats == Mats1 \cup { << << 0, 1 >>, << 2, 0 >> >>, << << 0, 0 >>, << 2, 0 >> >>,
+                         << << 0, 0, 0 >>,  << 2, 0, 0 >>,   << 1, 1, 0 >> >>,
+                         << << 0, 2, 0 >>,  << 0, 0, 2 >>,   << 2, 0, 0 >> >>,
+                         << << 0, 0, 0 >>,  << 0, 0, 0 >>,   << 0, 0, 0 >> >> }
+(* tolerances >= 1 with large values (the stopping rule must still let the iteration run) *)
+TolProfiles ==
+    { [lag |-> l, ic |-> FALSE, exo |-> x, cst |-> 3, userT |-> u, useT |-> w, tol |-> tl, nm |-> 0] :
+      l \in {0, 1}, x \in {0, 1}, u \in {"none", "endo"}, w \in BOOLEAN, tl \in {100, 200} }
 Base2 == { << << 0, 1 >>, << 2, 0 >> >> }
 OwnNameMats == Mats1 \cup Base2 \cup { << << 0, 1, 1 >>, << 1, 0, 1 >>, << 1, 1, 0 >> >> }
 
@@ -192,6 +217,8 @@ BlocksQuick(mt) ==
     \cup { MkBlock(o) : o \in ProfilesOver(Mats1 \cup Mats2 \cup Mats3Few, {mt}) }
     \cup { MkBlock(o) : o \in ProfilesOf(OwnNameProfiles, OwnNameMats, {mt}) }
     \cup { MkBlock(o) : o \in ProfilesOf(MathProfiles, Mats1 \cup Base2, {mt}) }
+    \cup { MkBlock(o) : o \in ProfilesOf(RedProfiles, RedMats, {mt}) }
+    \cup { MkBlock(o) : o \in ProfilesOf(TolProfiles, Mats1 \cup Base2, {mt}) }
 
 (* thorough: every option combination (lags 0-2) on every 1x1 / 2x2 / designed 3x3 matrix, and the  *)
 (* chained lag with the default tolerance; the colliding local names with every option on the 1x1   *)
@@ -206,12 +233,15 @@ BlocksThorough(mt) ==
     \cup { MkBlock(o) : o \in ProfilesOver(Mats3Mid, {4}) }
     \cup { MkBlock(o) : o \in ProfilesOf(OwnNameProfiles, OwnNameMats, {mt, 1}) }
     \cup { MkBlock(o) : o \in ProfilesOf(MathProfiles, Mats1 \cup BaseMats, {mt, 6}) }
+    \cup { MkBlock(o) : o \in ProfilesOf(RedProfiles, Mats1 \cup Mats2 \cup Mats3Few, {mt, 6}) }
+    \cup { MkBlock(o) : o \in ProfilesOf(TolProfiles, Mats1 \cup BaseMats, {mt, 6}) }
 
 (* a handful of blocks for the as-found counterexamples *)
 BlocksTiny(mt) ==
     { MkBlock(o) : o \in ProfilesOver(BaseMats, {mt}) }
     \cup { MkBlock(o) : o \in ProfilesOf(OwnNameProfiles, Base2, {mt}) }
     \cup { MkBlock(o) : o \in ProfilesOf({ pr \in MathProfiles : pr.fn \in {0, 2, 10} }, Base2, {mt}) }
+    \cup { MkBlock(o) : o \in ProfilesOf({ pr \in RedProfiles : pr.lag = 1 }, Base2, {mt}) }
 
 MC_Blocks == CASE Tier = "quick"    -> BlocksQuick(3)
                [] Tier = "thorough" -> BlocksThorough(3)
